@@ -282,7 +282,14 @@ func init() {
 		}
 		return v
 	})
-	vx("Atoi", func(ex *Exec, fr *Frame, a []Value, s ssa.Instruction) Value { return ex.tt.UF("atoi", SBV64, a[0].(*Term)) })
+	vx("Atoi", func(ex *Exec, fr *Frame, a []Value, s ssa.Instruction) Value {
+		if cs, ok := a[0].(*Term).StrVal(); ok {
+			if n, err := strconv.Atoi(cs); err == nil {
+				return ex.tt.BV(uint64(int64(n)), 64)
+			}
+		}
+		return ex.tt.UF("atoi", SBV64, a[0].(*Term))
+	})
 	vx("HttpReplies", func(ex *Exec, fr *Frame, a []Value, s ssa.Instruction) Value {
 		return ex.tt.BV(uint64(len(ex.W.httpReplies)), 64)
 	})
